@@ -645,6 +645,7 @@ def ward_quick(G, feature, verbose=False):
 
     # the within-cluster sums of squares are translation invariant; centring
     # avoids the cancellation of q - s ** 2 / n for features with a large offset
+    feature = feature.astype('d')
     feature = feature - feature.mean(0)
 
     Features = [np.ones(2 * G.V), np.zeros((2 * G.V, feature.shape[1])),
@@ -923,6 +924,7 @@ def ward(G, feature, verbose=False):
 
     # the within-cluster sums of squares are translation invariant; centring
     # avoids the cancellation of q - s ** 2 / n for features with a large offset
+    feature = feature.astype('d')
     feature = feature - feature.mean(0)
 
     Features = [np.ones(2 * G.V), np.zeros((2 * G.V, feature.shape[1])),
